@@ -117,6 +117,66 @@ class Frame(object):
         return f
 
 
+def _cond_base_atoms(c, out=None, depth=0):
+    if out is None:
+        out = set()
+    if depth > 6 or not isinstance(c, tuple):
+        return out
+    for x in c[1:]:
+        if isinstance(x, IntV):
+            base_atoms(x.lin, out)
+        elif isinstance(x, PtrV):
+            if x.off is not None:
+                base_atoms(x.off, out)
+        elif isinstance(x, Lin):
+            base_atoms(x, out)
+        elif isinstance(x, tuple):
+            _cond_base_atoms(x, out, depth + 1)
+        elif isinstance(x, str) and c[0] == 'nz':
+            out.add(x)
+    return out
+
+
+def _eval_cond(c, env, depth=0):
+    """Truth value of a recorded condition under a complete assignment, or None when it cannot be evaluated."""
+    if depth > 6 or not isinstance(c, tuple):
+        return None
+    k = c[0]
+    try:
+        if k == 'const':
+            return bool(c[1])
+        if k == 'not':
+            r = _eval_cond(c[1], env, depth + 1)
+            return None if r is None else (not r)
+        if k in ('and', 'or'):
+            a, b = _eval_cond(c[1], env, depth + 1), _eval_cond(c[2], env, depth + 1)
+            if a is None or b is None:
+                return None
+            return (a and b) if k == 'and' else (a or b)
+        if k == 'nz':
+            return eval_lin(Lin.atom(c[1]), env) != 0
+        if k == 'icmp':
+            pred, x, y = c[1], c[2], c[3]
+            if isinstance(x, PtrV) or isinstance(y, PtrV):
+                if not (isinstance(x, PtrV) and isinstance(y, PtrV) and x.obj == y.obj and x.obj is not None):
+                    return None
+                xv, yv, bits = eval_lin(x.off, env), eval_lin(y.off, env), 64
+            elif isinstance(x, IntV) and isinstance(y, IntV):
+                bits = x.bits
+                xv, yv = eval_lin(x.lin, env), eval_lin(y.lin, env)
+            else:
+                return None
+            M = 1 << bits
+            xu, yu = xv % M, yv % M
+            xs = xu - M if xu >= M // 2 else xu
+            ys = yu - M if yu >= M // 2 else yu
+            return {'eq': xu == yu, 'ne': xu != yu, 'ult': xu < yu, 'ule': xu <= yu, 'ugt': xu > yu, 'uge': xu >= yu,
+                    'slt': xs < ys, 'sle': xs <= ys, 'sgt': xs > ys, 'sge': xs >= ys}.get(pred)
+    except KeyError:
+        return None
+    return None
+
+
 class State(object):
     def __init__(self):
         self.rng = {}
@@ -465,6 +525,18 @@ class State(object):
 
         for a in extra_atoms:
             atoms.add(a)
+        # a symbol that stands for the outcome of a comparison is not free: the terms it was computed from take part, and the
+        # model must give it the value the comparison has (checked when the assignment is complete)
+        grew_c = True
+        while grew_c:
+            grew_c = False
+            for a in list(atoms):
+                c = self.conds.get(a) if isinstance(a, str) else None
+                if c is not None:
+                    for b in _cond_base_atoms(c):
+                        if b not in atoms:
+                            atoms.add(b)
+                            grew_c = True
         rel_facts = []
         grew = True
         rounds = 0
@@ -621,6 +693,13 @@ class State(object):
                         except KeyError:
                             continue
                         if v2 < rlo or v2 > rhi:
+                            return None
+                # outcomes of comparisons agree with the comparisons
+                for a2, v2 in env.items():
+                    c2 = self.conds.get(a2) if isinstance(a2, str) else None
+                    if c2 is not None:
+                        ev = _eval_cond(c2, env)
+                        if ev is None or int(bool(ev)) != int(v2 != 0):
                             return None
                 # two reads of the same location must have received the same value
                 seen_loc = {}
